@@ -1,0 +1,52 @@
+//go:build verif
+// +build verif
+
+package vss
+
+import (
+	"github.com/DOSNetwork/core/suites"
+	"github.com/dedis/kyber"
+	"github.com/dedis/kyber/sign/schnorr"
+)
+
+// Hooks for the verification harness (/verif). Built only with -tags verif.
+
+// VerifSealDeal seals an arbitrary (possibly inconsistent) plaintext deal for the verifier at
+// index recipient, exactly as Dealer.EncryptedDeal does: ephemeral key signed with the dealer's
+// long-term key, HKDF over the DH secret with the dealer/verifiers context, AES-GCM with that
+// context as additional data. dhSecret == nil picks a fresh ephemeral key.
+func VerifSealDeal(suite suites.Suite, dealerLong kyber.Scalar, verifiers []kyber.Point, recipient int, deal *Deal, dhSecret kyber.Scalar) (*EncryptedDeal, error) {
+	dealerPub := suite.Point().Mul(dealerLong, nil)
+	hkdfContext := context(suite, dealerPub, verifiers)
+	if dhSecret == nil {
+		dhSecret = suite.Scalar().Pick(suite.RandomStream())
+	}
+	dhPublic := suite.Point().Mul(dhSecret, nil)
+	dhPublicBuff, _ := dhPublic.MarshalBinary()
+	signature, err := schnorr.Sign(suite, dealerLong, dhPublicBuff)
+	if err != nil {
+		return nil, err
+	}
+	pre := dhExchange(suite, dhSecret, verifiers[recipient])
+	gcm, err := newAEAD(suite.Hash, pre, hkdfContext)
+	if err != nil {
+		return nil, err
+	}
+	nonce := make([]byte, gcm.NonceSize())
+	dealBuff, err := deal.MarshalBinary()
+	if err != nil {
+		return nil, err
+	}
+	return &EncryptedDeal{
+		DHKey:     dhPublicBuff,
+		Signature: signature,
+		Nonce:     nonce,
+		Cipher:    gcm.Seal(nil, nonce, dealBuff, hkdfContext),
+	}, nil
+}
+
+// VerifSessionID exposes the session id derivation.
+func VerifSessionID(suite suites.Suite, dealer kyber.Point, verifiers, commitments []kyber.Point, t int) []byte {
+	sid, _ := sessionID(suite, dealer, verifiers, commitments, t)
+	return sid
+}
